@@ -28,7 +28,7 @@ var allBuiltins = []builtin{
 // (widths, repeats, ranges) must keep termination expected.
 var chaosValues = []string{
 	`1`, `0`, `-1`, `0.5`, `2`, `"a"`, `""`, `"1"`, `true`, `null`, `nothing`, `[]`, `[1,2]`, `["a","b"]`, `[[1]]`, `[[],[1,[2]]]`, `{}`, `{"a":1}`,
-	`$sum`, `function($x){$x}`, `function($x,$y){$x}`, `$pad(?,2)`, `/a/`, `/a/("a")`, `$$`, `a`, `a.b`,
+	`$sum`, `function($x){$x}`, `function($x,$y){$x}`, `function($a,$b,$c,$d){$a}`, `$replace`, `$pad(?,2)`, `/a/`, `/a/("a")`, `$$`, `a`, `a.b`,
 }
 
 // chaosSmall is the sub-alphabet for wide products.
@@ -217,6 +217,27 @@ func init() {
 				if ctxForm {
 					prog = `"ctx".` + prog
 				}
+				c09Run(x, prog)
+			}},
+			{Name: "functions-as-callbacks", Quick: []int{1}, Run: func(c *explore.Chooser, x *explore.Ctx, _ int) {
+				// every built-in, lambdas of every arity 0..5, partials and chains as the function argument of every
+				// higher-order form, over arrays/objects of several kinds
+				lambdas := []string{"function(){1}", "function($a){$a}", "function($a,$b){$b}", "function($a,$b,$c){$c}", "function($a,$b,$c,$d){$d}",
+					"function($a,$b,$c,$d,$e){$e}", "$substring(?, 1)", "$replace(?, ?, ?, ?)", "($string ~> $length)", "|$|{}|", "/a/"}
+				k := c.Choose(nb + len(lambdas))
+				fn := ""
+				if k < nb {
+					fn = "$" + allBuiltins[k].name
+				} else {
+					fn = lambdas[k-nb]
+				}
+				forms := []string{"$map(A, F)", "$filter(A, F)", "$single(A, F)", "$reduce(A, F)", "$reduce(A, F, 1)", "$sort(A, F)", "$each(O, F)", "$sift(O, F)",
+					"A ~> F", "A.F($)", "$replace(\"aba\", /a/, F)", "$replace(\"aba\", F, \"-\")", "$split(\"aba\", F)", "$match(\"aba\", F)", "$contains(\"aba\", F)"}
+				form := forms[c.Choose(len(forms))]
+				arrs := []string{`[1, 2, 3]`, `["a", "b"]`, `[]`, `[[1], {"a": 1}]`, `5`}
+				a := arrs[c.Choose(len(arrs))]
+				c.Done()
+				prog := strings.NewReplacer("A", a, "F", fn, "O", `{"a": 1, "b": "x"}`).Replace(form)
 				c09Run(x, prog)
 			}},
 			{Name: "date-picture-chaos", Quick: []int{0, 1, 2, 3}, Thorough: []int{0, 1, 2, 3, 4}, Run: func(c *explore.Chooser, x *explore.Ctx, size int) {
